@@ -661,3 +661,9 @@ def run(ctx: Ctx) -> None:
     from .c18 import le_rule, range_rule
     range_rule(ctx, "R01.mem")
     le_rule(ctx, "R01.le")
+    # every load / store width goes through the one (de)composition: no remembered words beside the cell store (C18's accessor table)
+    from .c18 import acc_rule
+    acc_rule(ctx, "R01.acc")
+    # execution ends exactly when the simulation is done: step() / run() consult is_done() itself, nothing remembered (C13's rules)
+    from .c13 import run_rule
+    run_rule(ctx, "R01.run", classes=("RiscvSimulation",))
